@@ -31,6 +31,8 @@ Record c10_run := {
   o_fjump : list (int * (float * float) * (float * float));
   (* at an irrigation: slot, REGEN before/after, C1[0] at the end of the previous day / after deposition *)
   o_ijump : list (int * (float * float) * (float * float) * bool);
+  (* observed: ZTDG[0..] and EINTE[1..] after every harvest call *)
+  o_harv_arrays : list (list int * list int);
 }.
 
 Definition fsame4 (a b : float * float * float * float) : bool :=
@@ -56,7 +58,7 @@ Definition pay_of (tab : list (frow float)) (fert : float) (s : rd (float * stri
 
 (* bitmask: 1 fertiliser dates, 2 fertiliser split per slot, 4 fertiliser firings, 8 tillage dates,
    16 tillage payload, 32 tillage firings, 64 irrigation arrays, 128 irrigation firings,
-   256 DSUMM/NH4Sum jumps, 512 REGEN/C1[0] jumps *)
+   256 DSUMM/NH4Sum jumps, 512 REGEN/C1[0] jumps, 1024 date arrays after a harvest call *)
 Definition c10_check (tab : list (frow float)) (r : c10_run) : nat :=
   let B := zi (r_B r) in let E := zi (r_E r) in let M := Z.to_nat (zi (r_M r)) in
   let fs := fert_read (PrimFloat.zero, EmptyString) B (PrimFloat.zero, EmptyString) (map mkline (r_fert r)) in
@@ -84,7 +86,9 @@ Definition c10_check (tab : list (frow float)) (r : c10_run) : nat :=
                         let s := apply_irr {| s_regen := g0; s_c10 := c0 |} (fst (rd_pay is (zi k))) (snd (rd_pay is (zi k))) in
                         float_same (s_regen s) g1 &&
                         (negb usable || float_same (deposition (r_depos r) (r_dt r) (s_c10 s)) c1)) (o_ijump r) in
-  (b c1 1 + b c2 2 + b c3 4 + b c4 8 + b c5 16 + b c6 32 + b c7 64 + b c8 128 + b c9 256 + b c10 512)%nat.
+  let c11 := forallb (fun h => all2 Z.eqb (tab_of M (rd_date fs)) (map zi (fst h)) &&
+                              all2 Z.eqb (tab_of M (rd_date ts)) (map zi (snd h))) (o_harv_arrays r) in
+  (b c1 1 + b c2 2 + b c3 4 + b c4 8 + b c5 16 + b c6 32 + b c7 64 + b c8 128 + b c9 256 + b c10 512 + b c11 1024)%nat.
 
 Fixpoint mismatches {A} (chk : A -> nat) (i : nat) (l : list A) : list (nat * nat) :=
   match l with
